@@ -135,21 +135,25 @@ def _captured(fn):
     return cap.texts, raised
 
 
+def feat_opts(feat):
+    """Option set of a feature name.  'HB:<v4>:<v6>' = passwords + addresses with the host-bit options
+    given separately ('-' = that option is NOT passed at all)."""
+    if feat.startswith("HB:"):
+        _, v4, v6 = feat.split(":")
+        return dict(pwd=True, ip=True, words=None, asn=None, hb={k: int(v) for k, v in (("preserve_suffix_v4", v4), ("preserve_suffix_v6", v6)) if v != "-"})
+    return dict(FEATS[feat], hb={"preserve_suffix_v4": HOST_BITS, "preserve_suffix_v6": HOST_BITS})
+
+
 def make_anonymizer(feat):
     from netconan.anonymize_files import FileAnonymizer
-    f = FEATS[feat]
-    return FileAnonymizer(anon_pwd=f["pwd"], anon_ip=f["ip"], salt=SALT,
-                          sensitive_words=list(f["words"]) if f["words"] else None,
-                          as_numbers=list(f["asn"]) if f["asn"] else None,
-                          preserve_suffix_v4=HOST_BITS, preserve_suffix_v6=HOST_BITS)
+    return FileAnonymizer(**api_kwargs(feat))
 
 
 def api_kwargs(feat):
-    f = FEATS[feat]
+    f = feat_opts(feat)
     return dict(anon_pwd=f["pwd"], anon_ip=f["ip"], salt=SALT,
                 sensitive_words=list(f["words"]) if f["words"] else None,
-                as_numbers=list(f["asn"]) if f["asn"] else None,
-                preserve_suffix_v4=HOST_BITS, preserve_suffix_v6=HOST_BITS)
+                as_numbers=list(f["asn"]) if f["asn"] else None, **f["hb"])
 
 
 def cli_args(feat, inp, outp):
@@ -858,3 +862,49 @@ def run_nested(job, fsroot, repo):
         info["input_arg"], info["output_arg"] = "<sandbox>/in", "<sandbox>/" + outdir
         results.append({"entry": entry, "events": events, "info": info})
     return {"kind": "nest", "gid": job["gid"], "results": results}
+
+
+# ---------------------------------------------------------------------------
+# entry points agree when only ONE of the two host-bit options is given
+# ---------------------------------------------------------------------------
+HB_SETS = ["HB:4:-", "HB:8:-", "HB:16:-", "HB:-:8", "HB:-:64", "HB:8:8", "HB:16:64", "HB:-:-"]
+
+
+def hb_bytes(i):
+    return ("hostname hb-%d\ninterface Ethernet%d\n ip address 11.22.%d.77 255.255.255.0\n ip address 101.%d.3.201 255.255.0.0 secondary\n"
+            " ipv6 address 2001:db8:%x::a1b2:c3d4/64\n ipv6 address 2a02:26f0:%x:77::9f/48\n neighbor 2001:db8:%x::ffee password Hb%dSecret\n"
+            "end %d\n" % (i, i, 30 + i, i, i + 1, i + 2, i + 1, 1, i)).encode()
+
+
+def run_hostbits(job, fsroot, repo):
+    """Same options, same salt, same text through anonymize_files on a directory, anonymize_files on a single
+    file and FileAnonymizer.anonymize_file; the reference is the stream API (anonymize_io) with those options."""
+    feat = job["feat"]
+    root = os.path.join(fsroot, "w%d" % os.getpid())
+    results = []
+    for entry in job["entries"]:
+        if os.path.exists(root):
+            shutil.rmtree(root)
+        os.makedirs(root)
+        if entry == "dir":
+            files = ["r1.cfg", "sub dir/r2.cfg"]
+            slots = None
+            inp, outp = os.path.join(root, "in"), os.path.join(root, "out")
+        else:
+            files = ["r1.cfg"]
+            slots = {"r1.cfg": os.path.join("out", "named result.cfg")}
+            os.makedirs(os.path.join(root, "out"))
+            inp, outp = os.path.join(root, "in", "r1.cfg"), os.path.join(root, slots["r1.cfg"])
+        data = {r: hb_bytes(3 + j) for j, r in enumerate(files)}
+        for r in files:
+            _write(os.path.join(root, "in", r), data[r])
+        snap0 = snapshot(root)
+        texts, raised = run_entry(entry, feat, inp, outp, repo)
+        snap1 = snapshot(root)
+        shutil.rmtree(root, ignore_errors=True)
+        events, info = _project_plain(files, data, {r: "none" for r in files}, snap0, snap1, texts, raised, feat, "in", "out", slots=slots)
+        events[-1]["mayraise"] = entry == "fafile"
+        info["options"] = api_kwargs(feat)
+        info["address_lines_changed"] = stream_ref(data[files[0]], feat) != data[files[0]]
+        results.append({"entry": entry, "events": events, "info": info})
+    return {"kind": "hb", "gid": job["gid"], "results": results}
